@@ -117,10 +117,18 @@ Proof.
   - intros j Hj. unfold xz. destruct (Nat.leb_spec (S j) n0); [|ring]. rewrite Hz by lia. ring.
 Qed.
 
+Lemma pos_factor (P c : F) : pos P -> pos (P * c) -> pos c.
+Proof.
+  intros HP [Hn Hne]. split.
+  - apply (nonneg_cancel c P HP). exact Hn.
+  - intros E. apply Hne. rewrite E. ring.
+Qed.
+
 (* every stage of the recursion exists, satisfies the Levinson invariant and has positive power *)
 Lemma lev_iter_pos m : (m <= order)%nat ->
   exists A P ks, lev_iter (tl r) true (nthF r O) m = Some (A, P, ks)
-    /\ length A = m /\ length ks = m /\ Inv r m (afun A) P /\ pos P.
+    /\ length A = m /\ length ks = m /\ Inv r m (afun A) P /\ pos P
+    /\ forall j, (j < m)%nat -> pos (1 - nrm2 (nthF ks j)).
 Proof.
   induction m; intros Hm.
   - exists [], (nthF r O), []. split; [reflexivity|]. split; [reflexivity|]. split; [reflexivity|].
@@ -128,8 +136,8 @@ Proof.
     { unfold Inv. repeat split; try (intros; lia).
       - exact r0_real.
       - unfold row. cbn. unfold rr, rz. cbn. ring. }
-    split; [exact HI|]. exact (stage_pos O _ _ Hm HI).
-  - destruct (IHm ltac:(lia)) as (A & P & ks & E & HA & Hks & HI & HP).
+    split; [exact HI|]. split; [exact (stage_pos O _ _ Hm HI)|]. intros j Hj. lia.
+  - destruct (IHm ltac:(lia)) as (A & P & ks & E & HA & Hks & HI & HP & Hkk).
     set (k := (- lev_delta (tl r) A m) / P).
     exists (stepup A k), (P * (1 - k * conj k)), (ks ++ [k]).
     assert (Hk : k * P = - row r m (afun A) (S m)).
@@ -142,7 +150,10 @@ Proof.
     split.
     { cbn [lev_iter]. rewrite E. unfold lev_step. fold k. cbn [negb]. rewrite Bool.andb_false_r. reflexivity. }
     split; [rewrite stepup_length; lia|]. split; [rewrite app_length; cbn; lia|].
-    split; [exact HI'|]. exact (stage_pos (S m) _ _ Hm HI').
+    split; [exact HI'|]. pose proof (stage_pos (S m) _ _ Hm HI') as HP'. split; [exact HP'|].
+    intros j Hj. destruct (Nat.eq_dec j m) as [->|Hne].
+    + rewrite (nthF_app_last' ks k m Hks). unfold nrm2. exact (pos_factor P _ HP HP').
+    + rewrite nthF_app_l by lia. apply Hkk. lia.
 Qed.
 End Fixed.
 
@@ -150,7 +161,7 @@ End Fixed.
 Theorem aryule_pos_thm (x : list F) order a P k :
   (exists n, (n < length x)%nat /\ nthF x n <> 0) ->
   aryule x order Biased = Some (a, P, k) ->
-  pos P /\ length a = order /\
+  pos P /\ length a = order /\ (forall j, (j < order)%nat -> pos (1 - nrm2 (nthF k j))) /\
   exists r, acorr x order Biased = Some r /\
     forall i, (i <= order)%nat -> toeplitz_row r order a i = if (i =? 0)%nat then P else 0.
 Proof.
@@ -160,9 +171,9 @@ Proof.
   { unfold acorr in Er. destruct (correlation_def_thm _ _ _ _ _ _ Er) as (_ & Hl & _). exact Hl. }
   unfold levinson in H. rewrite Nat.leb_refl, Hlen in H. replace (S order - 1)%nat with order in H by lia.
   rewrite (re_real _ (r0_real x order r Er)) in H.
-  destruct (lev_iter_pos x order r Er Hx order (le_n _)) as (A & P' & ks & E & _ & _ & (Ha0 & HPr & Hrow0 & Hrows) & HP).
+  destruct (lev_iter_pos x order r Er Hx order (le_n _)) as (A & P' & ks & E & _ & _ & (Ha0 & HPr & Hrow0 & Hrows) & HP & Hkk).
   rewrite E in H. injection H as <- <- <-.
-  split; [exact HP|]. split; [exact Hla|]. exists r. split; [reflexivity|].
+  split; [exact HP|]. split; [exact Hla|]. split; [exact Hkk|]. exists r. split; [reflexivity|].
   intros i Hi. destruct (Nat.eqb_spec i O) as [->|Hne]; [exact Hrow0|apply Hrows; lia].
 Qed.
 
@@ -174,6 +185,7 @@ Theorem ma_valid_thm (x : list F) Q M b rho :
   exists a k1 P2 k2 r2,
     aryule x M Biased = Some (a, rho, k1) /\ length a = M
     /\ aryule (1 :: a) Q Biased = Some (b, P2, k2) /\ pos P2
+    /\ (forall j, (j < Q)%nat -> pos (1 - nrm2 (nthF k2 j)))
     /\ acorr (1 :: a) Q Biased = Some r2
     /\ forall i, (i <= Q)%nat -> toeplitz_row r2 Q b i = if (i =? 0)%nat then P2 else 0.
 Proof.
@@ -182,11 +194,11 @@ Proof.
   destruct (aryule x M Biased) as [[[a r0] k1]|] eqn:E1; [|discriminate].
   destruct (aryule (1 :: a) Q Biased) as [[[b' P2] k2]|] eqn:E2; [|discriminate].
   injection H as <- <-.
-  destruct (aryule_pos_thm _ _ _ _ _ Hx E1) as (HP1 & Hla & _).
+  destruct (aryule_pos_thm _ _ _ _ _ Hx E1) as (HP1 & Hla & _ & _).
   assert (Hx2 : exists n, (n < length (1%F :: a))%nat /\ nthF (1 :: a) n <> 0).
   { exists O. split; [cbn; lia|]. cbn. apply one_neq_0. }
-  destruct (aryule_pos_thm _ _ _ _ _ Hx2 E2) as (HP2 & _ & r2 & Er2 & Hrows).
-  split; [exact HP1|]. exists a, k1, P2, k2, r2. split; [reflexivity|]. split; [exact Hla|]. split; [exact E2|]. split; [exact HP2|]. split; [exact Er2|exact Hrows].
+  destruct (aryule_pos_thm _ _ _ _ _ Hx2 E2) as (HP2 & _ & Hk2 & r2 & Er2 & Hrows).
+  split; [exact HP1|]. exists a, k1, P2, k2, r2. split; [reflexivity|]. split; [exact Hla|]. split; [exact E2|]. split; [exact HP2|]. split; [exact Hk2|]. split; [exact Er2|exact Hrows].
 Qed.
 
 (* ---------- arma_estimate: positive variance whenever the filtered residual is not identically zero ---------- *)
